@@ -48,6 +48,7 @@ def tree_of(msg):
 def oracle(program, aux):
     shim.install('UTC')
     failures = []
+    shim.set_tick(len(program['ops']) % 2 == 1)      # a moving clock in half of the cases (nothing here compares bytes across runs)
     run = Run(program)
     run.run_all()
     run.stats = {'c01_domain': 0}
